@@ -433,3 +433,10 @@ func ZZ_C05_PayloadNoPanic_witness() {
 func ZZ_C05_PayloadNoPanic_Addr() {
 	zzC05NoPanic([]zzC05Decoder{{"addr", func() Message { return &Addr{} }}})
 }
+
+func ZZ_C05_PayloadNoPanic_Addr_witness() {
+	buf := zzsym.BytesUpTo("buf", 52)
+	a := &Addr{}
+	err := a.Deserialization(comm.NewZeroCopySource(buf))
+	zzsym.Assert(err != nil || len(a.NodeAddrs) != 1 || a.NodeAddrs[0].Port != 20338, "witness: some payload decodes to one peer address with port 20338")
+}
